@@ -29,6 +29,8 @@ from props.common import GEOM_CLASSES, MAXF, is_rejection, mkgeom
 
 ID = "C06"
 RULE = (
+    "[representations] at dt = 0 every case is also evaluated with both geometries as instances of user subclasses of the geometry classes and, "
+    "for whole-number buffers, with the buffers given as int / numpy.int64 / numpy.float64: same value required. "
     "every ordered pair (g, h) of the geometry pool (all 81 type combinations, self pairs included) x every "
     "buffer pair of the grid that the quantifier admits for the two types (+ one case calling with the default "
     "buffers); each case evaluates a(g,h) and a(h,g) for the pair as given and shifted by every dt (all oracles "
